@@ -197,11 +197,14 @@ def callers_of(crate):
     return out
 
 
-def inline_helpers(f, crate, depth=2, _callers=None, _counter=None):
-    """returns a copy of f whose body has calls to new private single-caller helpers replaced by their bodies"""
+def inline_helpers(f, crate, depth=2, _callers=None, _counter=None, force=()):
+    """returns a copy of f whose body has calls to new private single-caller helpers replaced by their bodies
+    (`force`: callee paths that are inlined although they are known functions - for rules that follow a delegation between siblings)"""
     if _counter is None:
         _counter = [0]
     known = known_fns()
+    if force:
+        known = {k_: v_ for k_, v_ in known.items() if k_ not in force} if isinstance(known, dict) else set(known) - set(force)
     g = dict(f)
     g["body"] = copy.deepcopy(f["body"])
     g["params"] = copy.deepcopy(f.get("params", []))
@@ -549,9 +552,9 @@ def apply_ctor_values(root):
             n.pop("f", None)
 
 
-def prepare(f, crate):
+def prepare(f, crate, force=()):
     """inlined copy + alias registration (idempotent per function object)"""
-    g = inline_helpers(f, crate)
+    g = inline_helpers(f, crate, force=force)
     apply_ctor_values(g["body"])
     split_tuple_lets(g["body"])
     _tree.ALIASES.update(collect_aliases(g))
@@ -1035,13 +1038,30 @@ def value_alternatives(e, depth=0):
         return value_alternatives(_tree.LET_INITS[e["id"]], depth + 1)
     if e.get("k") == "if" and "else" in e:
         out = []
+        c0 = resolve(peel(e["cond"]))
+        known = c0.get("v") if c0.get("k") == "lit" and isinstance(c0.get("v"), bool) else None     # e.g. a flag parameter of an inlined helper
         for br, pol in ((e["then"], True), (e["else"], False)):
-            if _diverges(br):
+            if _diverges(br) or (known is not None and known != pol):
                 continue
-            out += [([(e["cond"], pol)] + cs, x) for cs, x in value_alternatives(br, depth + 1)]
+            out += [(([] if known is not None else [(e["cond"], pol)]) + cs, x) for cs, x in value_alternatives(br, depth + 1)]
+        return out
+    if e.get("k") == "match" and e.get("src", "match") == "match":
+        out = []
+        for arm in e["arms"]:
+            if _diverges(arm["body"]):
+                continue
+            conds = [({"k": "armpat", "scrut": e["scrut"], "pat": arm["pat"]}, True)]
+            if "guard" in arm:
+                conds += [(c_, True) for c_ in conjuncts(arm["guard"])]
+            out += [(conds + cs, x) for cs, x in value_alternatives(arm["body"], depth + 1)]
         return out
     if e.get("k") == "blockexpr" and "tail" in e["b"]:
         return value_alternatives(e["b"]["tail"], depth + 1)
+    if e.get("k") == "callv" and peel(e.get("f", {})).get("k") == "local":
+        # a constructor chosen first and applied later: `let make = if c { A } else { B }; make(x, y)`
+        alts = value_alternatives(peel(e["f"]), depth + 1)
+        if alts and all(peel(x).get("k") == "def" and str(peel(x).get("dk", "")).startswith("ctor") for _, x in alts):
+            return [(cs, {"k": "ctor", "dk": peel(x).get("dk"), "path": peel(x)["path"], "args": e.get("args", []), "ty": e.get("ty"), "sp": e.get("sp")}) for cs, x in alts]
     return [([], e)]
 
 
